@@ -138,6 +138,18 @@ impl HardwareBreakpoint {
     }
 
     fn enable(&mut self, tracee_ctl: &TraceeCtl) -> Result<HardwareDebugState, Error> {
+        // the processor (and the kernel) accepts only addresses aligned to the watched length,
+        // a misaligned request would be recorded but never armed
+        let len = match self.size {
+            BreakSize::Bytes1 => 1,
+            BreakSize::Bytes2 => 2,
+            BreakSize::Bytes4 => 4,
+            BreakSize::Bytes8 => 8,
+        };
+        if self.address.as_usize() % len != 0 {
+            return Err(Error::WatchpointMisaligned);
+        }
+
         let mut state = HardwareDebugState::current(tracee_ctl.proc_pid())?;
 
         // trying to find free debug register
